@@ -52,6 +52,10 @@ pub enum Item {
 pub struct Chan {
     pub queue: Vec<usize>,
     pub rx: RState,
+    /// created through a one-shot server (kept apart in the canonical form so that what happens
+    /// *after* such a creation is explored too, not only the creation itself)
+    #[serde(default)]
+    pub oneshot: bool,
 }
 
 #[derive(Clone, Debug, PartialEq, Eq, Hash, Serialize, Deserialize)]
@@ -113,7 +117,7 @@ pub enum Expect {
 impl World {
     pub fn new(nchan: usize) -> World {
         World {
-            chans: (0..nchan).map(|_| Chan { queue: vec![], rx: RState::Held }).collect(),
+            chans: (0..nchan).map(|_| Chan { queue: vec![], rx: RState::Held, oneshot: false }).collect(),
             handles: (0..nchan).map(|c| Handle { chan: c, st: HState::Held(Loc::Main) }).collect(),
             msgs: vec![],
             next_tag: 1,
@@ -335,7 +339,7 @@ impl World {
             },
             Op::NewChannel | Op::OneShot => {
                 let c = self.chans.len();
-                self.chans.push(Chan { queue: vec![], rx: RState::Held });
+                self.chans.push(Chan { queue: vec![], rx: RState::Held, oneshot: *op == Op::OneShot });
                 self.handles.push(Handle { chan: c, st: HState::Held(Loc::Main) });
                 Expect::Done
             },
@@ -411,7 +415,7 @@ impl World {
             s.push(']');
         }
         for (i, c) in self.chans.iter().enumerate() {
-            s.push_str(&format!("c{}:", i));
+            s.push_str(&format!("c{}{}:", i, if c.oneshot { "o" } else { "" }));
             match c.rx {
                 RState::Held => {
                     s.push('H');
